@@ -8,7 +8,7 @@ def showRes : Res → String
 
 /-- `seal|open x=0|1 path=… key= nonce= ad= pt=|ct= dst= cap=`  (`path`, `cap` select the implementation
     path / spare capacity in the harness; the result must not depend on them) -/
-def handle (line : String) : String :=
+def handle1 (line : String) : String :=
   let o := parseOp line
   match o.nat? "x", o.hex? "key", o.hex? "nonce", o.hex? "ad", o.hex? "dst" with
   | some x, some key, some nonce, some ad, some dst =>
@@ -34,5 +34,15 @@ def handle (line : String) : String :=
       | some ct => showRes (if x == 1 then xaeadOpen key nonce dst ct ad else aeadOpen key nonce dst ct ad)
     else "bad-op"
   | _, _, _, _, _ => "bad-op"
+
+/-- `sess ops=<op1>|<op2>|…` (sub-op fields separated by `;`): a session of calls that share arrays and buffers in
+    the harness. The model is a pure function of contents: each sub-op is answered on its own. -/
+def handle (line : String) : String :=
+  let o := parseOp line
+  if o.cmd == "sess" then
+    match o.get? "ops" with
+    | some v => " ## ".intercalate ((v.splitOn "|").map (fun s => handle1 (s.replace ";" " ")))
+    | none => "bad-op"
+  else handle1 line
 
 end XC.C01
